@@ -125,6 +125,25 @@ def count_programs(depth):
     return sum(1 for _ in programs(depth))
 
 
+# alpha-renaming onto names that are also vocabulary words (none of them is used as a word by this family): a binder
+# shadows a builtin like any other outer binding, so a well-scoped program must not notice the renaming
+RENAME = {"A": "pos", "B": "type", "C": "value", "F": "rot", "G": "over"}
+
+
+def rename(t):
+    if isinstance(t, tuple):
+        if t and t[0] == "rd":
+            return ("rd", RENAME.get(t[1], t[1]))
+        if t and t[0] in ("par", "cap", "block", "let") and isinstance(t[1], list):
+            return (t[0], [RENAME.get(n, n) for n in t[1]]) + tuple(rename(x) for x in t[2:])
+        if t and t[0] == "sub":
+            return (t[0], t[1], [RENAME.get(n, n) for n in t[2]]) + tuple(rename(x) for x in t[3:])
+        return tuple(rename(x) for x in t)
+    if isinstance(t, list):
+        return [rename(x) for x in t]
+    return t
+
+
 def classify(msg):
     if "rebound" in msg:
         return "rebound"
@@ -133,7 +152,20 @@ def classify(msg):
     return "other:" + msg[:60]
 
 
-def judge(name, t, r, core_words):
+def judge(name, t, r, core_words, r2=None):
+    bad, oc = judge1(name, t, r, core_words)
+    if r2 is not None and not bad and not oc.startswith("err:") and oc != "crash":
+        q2 = zwmodel.render(rename(t))
+        if r2.crash:
+            return [("prog:%s|renamed-crash" % q2, "`%s` (%s with binder names that are vocabulary words): driver died: %s %s" % (
+                q2, name, r2.crash[0], r2.crash[1][-600:]), {"name": name, "ast": repr(t), "kind": "renamed"})], "renamed"
+        if r2.lines != r.lines:
+            return [("prog:%s|renamed" % q2, "`%s` yields %r, but `%s` (the same program with other binder names) yields %r" % (
+                q2, r2.lines[:8], zwmodel.render(t), r.lines[:8]), {"name": name, "ast": repr(t), "kind": "renamed"})], "renamed"
+    return bad, oc
+
+
+def judge1(name, t, r, core_words):
     q = zwmodel.render(t)
     case = {"name": name, "ast": repr(t)}
 
@@ -183,9 +215,10 @@ def _worker(d, task, extra):
     pending = []
 
     def flush(n):
-        rs = d.recv(n)
-        for (name, t), r in zip(pending[:n], rs):
-            bad, oc = judge(name, t, r, core_words)
+        rs = d.recv(2 * n)
+        for i, (name, t) in enumerate(pending[:n]):
+            r = rs[2 * i]
+            bad, oc = judge(name, t, r, core_words, rs[2 * i + 1])
             out["programs"] += 1
             out["pulls"] += len(r.results()) + 1
             out["bad"] += bad
@@ -201,7 +234,7 @@ def _worker(d, task, extra):
     else:
         src = itertools.islice(programs(depth), k, None, m)
     for name, t in src:
-        d.send([drv.run_cmd(zwmodel.render(t), lim=1500)])
+        d.send([drv.run_cmd(zwmodel.render(t), lim=1500), drv.run_cmd(zwmodel.render(rename(t)), lim=1500)])
         pending.append((name, t))
         if len(pending) >= 40:
             flush(20)
@@ -231,7 +264,7 @@ def replay(case):
     d = drv.Drv(b, "core")
     try:
         t = _ast.literal_eval(case["ast"])
-        bad, _ = judge(case["name"], t, d.run(zwmodel.render(t), lim=1500), words)
+        bad, _ = judge(case["name"], t, d.run(zwmodel.render(t), lim=1500), words, d.run(zwmodel.render(rename(t)), lim=1500))
         return bool(bad)
     finally:
         d.close()
@@ -240,6 +273,7 @@ def replay(case):
 def main(ctx):
     bins = ctx.build(["zwdrv"])
     codes, words = setup_info(bins["zwdrv"])
+    assert all(w in words for w in RENAME.values()), "renaming targets must be vocabulary words"
     depth = 3 if ctx.tier == "thorough" else 2
     binary = bins["zwdrv"]
     parts = [(2, binary)]
@@ -270,7 +304,8 @@ def main(ctx):
         "distinct_nontrivial": n,
         "distinct_outcomes": outcomes,
         "rule": "state = one binder program compiled and run to exhaustion on the empty stack; distinct = distinct program text; every program has at least "
-                "one name read under at least one binder or context; outcomes: ok:<#results>, err:<class>, unjudged",
+                "one name read under at least one binder or context; outcomes: ok:<#results>, err:<class>, unjudged; every well-scoped program is also run "
+                "with its binder names replaced by vocabulary words (%s) and must yield the identical output" % RENAME,
         "bounds": {"nesting_depth": depth, "binder_forms": [b[0] for b in binder_forms(True)], "context_forms": [c[0] for c in context_forms()],
                    "note": "depth 3 (thorough): every 8th depth-2 program wrapped once more by every binder and context form, on the non-sanitized engine"},
     }
